@@ -32,20 +32,22 @@ REQUIRED = {
             "timing-checked": 2000, "overrun-catchup": 30, "mode-string-checked": 2000, "teleop-in-auto-iteration": 100,
             "inherited-robot-class": 50, "fault-in-iteration-body-swallowed": 20, "statemachine-component": 100,
             "robot-without-some-mode-hooks": 100, "falsy-mode-object-active": 10, "mode-chosen-by-auto-selector-string": 50,
-            "falsy-component": 100, "auto-iteration-mode-rule-checked": 2000},
+            "falsy-component": 100, "component-constructor-takes-another-component": 100, "auto-iteration-mode-rule-checked": 2000, "driver-station-changed-mid-iteration": 300},
     "C06": {"transition:teleop->auto": 20, "transition:auto->teleop": 20, "transition:teleop->disabled": 30,
             "transition:disabled->teleop": 30, "transition:auto->test": 10, "setup-checked": 300, "lifecycle-fault-swallowed": 30, "statemachine-component": 100, "end:teleop": 10, "end:auto": 10,
             "end:disabled": 10, "end:test": 10, "robot-without-some-mode-hooks": 100,
-            "hooks-that-are-not-plain-methods": 100, "mode-named-like-a-component": 20, "falsy-component": 100},
+            "hooks-that-are-not-plain-methods": 100, "mode-named-like-a-component": 20, "falsy-component": 100,
+            "driver-station-changed-mid-iteration": 300},
     "C07": {"swallowed:execute": 20, "swallowed:on_enable": 10, "swallowed:on_disable": 10, "swallowed:robotPeriodic": 10,
             "swallowed:teleopPeriodic-in-auto": 5, "swallowed:feedback": 10, "swallowed:mode.on_iteration": 5,
             "swallowed:init": 10, "swallowed:periodic": 10, "propagated": 100, "iterations-after-fault": 500,
-            "trace-equals-fault-free-twin": 200, "prefix-equals-fault-free-twin": 100, "fault-after-fms-change": 10},
+            "trace-equals-fault-free-twin": 200, "prefix-equals-fault-free-twin": 100, "fault-after-fms-change": 10,
+            "fault-without-fms-but-with-match-info": 50, "driver-station-changed-mid-iteration": 300},
     "C10": {"assign-enabled": 500, "reset-checked-at-arrival": 2000, "assign-disabled-dontcare": 50, "sentinel-assign": 50,
             "fault-in-reset-iteration": 20, "snapshot-checked": 20000,
             "marker-redeclared-in-subclass": 30, "marker-shadowed-by-plain-attribute": 30, "two-components-one-class": 50,
             "private-named-marker": 30, "identity-only-default": 30, "component-class-derived-from-another-component-class": 30,
-            "fault-after-fms-attached-mid-run": 10, "two-components-comparing-equal": 20, "constructor-assigns-reset-attribute": 100,
+            "fault-after-fms-attached-mid-run": 10, "two-components-comparing-equal": 20, "constructor-assigns-reset-attribute": 100, "one-marker-object-under-two-names": 50, "driver-station-changed-mid-iteration": 300,
             "falsy-component": 100},
     "C11": {"feedback-value-checked": 5000, "feedback-type-checked": 5000, "raised-getter-unchanged": 20,
             "hint:int": 50, "hint:float": 50, "hint:bool": 50, "hint:str": 50, "hint:int[]": 20, "hint:rot": 20, "hint:none": 50,
@@ -94,6 +96,12 @@ def gen_case(rng, pid, uid):
             if not r["inherited"] and rng.random() < 0.25:
                 r["base_default"] = rng.choice([d for d in defaults if d != r["default"] or type(d) is not type(r["default"])])
             c["resets"].append(r)
+        if len(c["resets"]) >= 2 and rng.random() < 0.15:
+            a0, a1 = c["resets"][0], c["resets"][1]
+            for k_ in ("base_default",):
+                a0.pop(k_, None)
+                a1.pop(k_, None)
+            a1.update({"alias_of": a0["attr"], "default": a0["default"], "inherited": a0["inherited"]})
         if rng.random() < 0.5:
             sn = {"attr": "keep", "value": rng.choice([11, "s", None])}
             if rng.random() < 0.3:
@@ -141,6 +149,11 @@ def gen_case(rng, pid, uid):
             comps[b]["extra_feedbacks"] = ex_f
             comps[b]["resets"] = comps[b]["resets"] + ex_r
             comps[b]["feedbacks"] = comps[b]["feedbacks"] + ex_f
+    order_ = [x for rc_ in robot_classes for x in rc_["components"]]
+    for k_, cn_ in enumerate(order_):
+        shared_ = comps[cn_].get("same_class_as") or any(o_.get("same_class_as") == cn_ for o_ in comps.values())
+        if k_ and not shared_ and rng.random() < 0.15:
+            comps[cn_]["ctor_inject"] = [rng.choice(order_[:k_])]     # __init__ asks for an earlier-declared component
     robot_fbs = [_gen_fb(rng, fbnames, 10 + j, uid) for j in range(2) if rng.random() < p_fb]
     r = rng.random()
     if r < 0.12:
@@ -171,6 +184,8 @@ def gen_case(rng, pid, uid):
     spec = {"uid": uid, "pid": pid, "period_us": period, "teleop_in_auto": rng.random() < 0.5, "fms": False,
             "robot_classes": robot_classes, "components": comps, "robot_feedbacks": robot_fbs, "modes": modes,
             "history": hist, "disabled_flags": dflags, "super_robot_periodic": rng.random() < 0.3, "plan": {}}
+    if rng.random() < (0.5 if pid == "C07" else 0.1):
+        spec["match_type"] = rng.choice(["practice", "qualification", "elimination"])
     if modes and rng.random() < 0.3:
         spec["auto_selector"] = rng.choice([m["name"] for m in modes] + ["nosuchmode"])
     if rng.random() < 0.25:
@@ -178,6 +193,26 @@ def gen_case(rng, pid, uid):
         hk = ["disabledInit", "disabledPeriodic", "teleopInit", "teleopPeriodic", "autonomousInit", "testInit", "testPeriodic"]
         spec["omit_hooks"] = sorted(rng.sample(hk, rng.choice([1, 2, 3, 7])))
     sites = all_sites(spec)
+    if rng.random() < 0.3:
+        # in some segments the driver station changes mode in the middle of the last iteration, not between two
+        es = {}
+        for si, (m_, _dw) in enumerate(hist[:-1]):
+            if rng.random() < 0.5:
+                pool_ = ["R.robotPeriodic"] + fb_sites(spec)
+                if m_ == "disabled":
+                    pool_.append("R.disabledPeriodic")
+                elif m_ == "test":
+                    pool_.append("R.testPeriodic")
+                else:
+                    pool_ += [f"{c_}.execute" for c_ in decl_order(spec)]
+                    if m_ == "teleop" or spec["teleop_in_auto"]:
+                        pool_ += ["R.teleopPeriodic"] * 2
+                    if m_ == "auto" and active_mode(spec):
+                        pool_ += [f"M.{active_mode(spec)}.on_iteration"] * 2
+                pool_ = [x for x in pool_ if x[2:] not in spec.get("omit_hooks", ())]
+                es[str(si)] = rng.choice(pool_)
+        if es:
+            spec["early_switch"] = es
     plan = spec["plan"]
 
     def at(site, idx):
@@ -952,6 +987,13 @@ def run_case(spec, acc):
         V.ev("statemachine-component")
     if spec.get("omit_hooks"):
         V.ev("robot-without-some-mode-hooks")
+    if spec.get("match_type"):
+        V.ev("match-info-present:" + spec["match_type"])
+        if not spec["fms"] and not spec.get("fms_changes") and any(e[0] == "raise" for e in run.log):
+            V.ev("fault-without-fms-but-with-match-info")
+    n_es = sum(1 for e in run.log if e[0] == "early-switch")
+    if n_es:
+        V.ev("driver-station-changed-mid-iteration", n_es)
     cs = spec["components"].values()
     if any(c.get("truth") for c in cs):
         V.ev("falsy-component")
@@ -960,6 +1002,10 @@ def run_case(spec, acc):
         V.ev("two-components-comparing-equal")
     if any(c.get("hook_kind") for c in cs):
         V.ev("hooks-that-are-not-plain-methods")
+    if any(c.get("ctor_inject") for c in cs):
+        V.ev("component-constructor-takes-another-component")
+    if any(r.get("alias_of") for c in cs for r in c["resets"]):
+        V.ev("one-marker-object-under-two-names")
     if any("ctor_value" in r for c in cs for r in c["resets"]):
         V.ev("constructor-assigns-reset-attribute")
     am_ = active_mode(spec)
